@@ -85,6 +85,7 @@ class Schema:
         self.dialects = []    # list of (None | list of origin names)   None = no no_copy_collections attribute
         self.tvars = []       # constrained TypeVars: tuple of member types
         self.nwrap = 0        # counter for named wrappers (NewType / alias / bound TypeVar)
+        self.td_present = {}  # TypedDict index -> keys present in every value of this case (optional keys: decided once)
         self.model = True     # every type is inside the Coq grammar
 
 
@@ -226,11 +227,11 @@ def gen_ty0(rng, sch: Schema, depth: int, lower_classes: list, extras: bool):
     if r < 0.97 and lower_classes:
         return ("dc", rng.choice(lower_classes))
     if extras:
-        sch.model = False
         q = rng.random()
         if q < 0.3:
             fs = [(f"k{i}", gen_ty(rng, sch, depth - 1, lower_classes, extras), rng.random() < 0.7)
                   for i in range(rng.randint(1, 3))]
+            fs.sort(key=lambda f: not f[2])      # required keys first: the order the library writes them in
             fs = [(a, add_wrapper(sch, b, rng.choice(["readonly", "tdreq" if r else "tdnotreq"]))
                    if rng.random() < 0.4 and not wrapper_of(b) else b, r) for a, b, r in fs]
             sch.tds.append(fs)
@@ -742,9 +743,11 @@ def gen_value_src(rng, t, sch: Schema, depth: int, wire: bool = False) -> str:
         body = ", ".join(items)
         return f"[{body}]" if wire else f"NT{t[1]}({body})"
     if k == "td":
+        if t[1] not in sch.td_present:
+            sch.td_present[t[1]] = [fn for fn, ft, req in sch.tds[t[1]] if req or rng.random() < 0.6]
         parts = []
         for fn, ft, req in sch.tds[t[1]]:
-            if req or rng.random() < 0.6:
+            if fn in sch.td_present[t[1]]:
                 parts.append(f"{fn!r}: " + gen_value_src(rng, ft, sch, depth - 1, wire))
         return "{" + ", ".join(parts) + "}"
     if k == "map":
@@ -1297,6 +1300,11 @@ def coq_ty(t, sch) -> str:
         if all(isinstance(x, (int, str)) and not isinstance(x, bool) for x in t[1]):
             return "TLit"
         raise ValueError("literal outside the model")
+    if k == "td":
+        present = sch.td_present.get(t[1], [fn for fn, _, _ in sch.tds[t[1]]])
+        return "(TRec [" + "; ".join(coq_ty(ft, sch) for fn, ft, _ in sch.tds[t[1]] if fn in present) + "])"
+    if k == "chain":
+        return f"(TComp KChainMap (TRMap {coq_ty(t[1], sch)} {coq_ty(t[2], sch)}))"
     if k == "union":
         return coq_union(t, sch) if WIRE_SIDE_COQ[0] else coq_union_pack(t, sch)
     raise ValueError(t)
@@ -1393,6 +1401,8 @@ def coq_value(o, labels: dict, fresh_marker=None, wire_class=None) -> str:
         ci = int(type(o).__name__[1:])
         fs = "; ".join(coq_value(getattr(o, f.name), labels, fresh_marker) for f in _dc.fields(o))
         return f"(VObj {ci} {lab} [{fs}])"
+    if isinstance(o, _c.ChainMap):
+        return f"(VSeq KChainMap {lab} [" + "; ".join(coq_value(m, labels, fresh_marker) for m in o.maps) + "])"
     if isinstance(o, dict):
         kind = KIND_OF_CLASS[type(o).__name__]
         kvs = "; ".join(f"({coq_value(a, labels, fresh_marker)}, {coq_value(b, labels, fresh_marker)})" for a, b in o.items())
@@ -1551,11 +1561,11 @@ def wrapper_probe_cases(rng, side: str):
             sch.dialects = [["list", "dict", "set"]]
             fields = []
             if kind == "td":
-                sch.model = False
                 items = []
                 for j, ct in enumerate(WRAP_CONTS):
                     req = j % 3 != 2
                     items.append((f"k{j}", add_wrapper(sch, ct, ["readonly", "tdreq" if req else "tdnotreq", "tdreq" if req else "tdnotreq"][j % 3]), req))
+                items.sort(key=lambda f: not f[2])
                 sch.tds.append(items)
                 fields.append(("f0", ("td", 0)))
             else:
